@@ -201,6 +201,8 @@ pub fn run_explorer(prop: &str, tier: Tier, ext: bool) -> J {
 // ---------------------------------------------------------------------------------------------
 // helper: run a fixed history against the monitor (step oracle) inside an index-addressable space
 
+const LONG_PREFIX: usize = 2_000;
+
 pub fn run_with_monitor(l: &mut Local, prop: &'static str, lines: &[(Vec<u8>, bool)]) {
     let mut p = Parser::new();
     let mut m = MState::Closed;
@@ -212,7 +214,12 @@ pub fn run_with_monitor(l: &mut Local, prop: &'static str, lines: &[(Vec<u8>, bo
     for (i, (line, decode)) in lines.iter().enumerate() {
         let (exp, m1) = asm::step(&m, line, *decode, subj::NOALLOC);
         // the parser's Debug rendering is only needed where the no-trace clause applies
-        let need_state = !matches!(exp, asm::Expect::Incomplete | asm::Expect::Deliver { .. } | asm::Expect::RejectCapacity);
+        // ... and only within the first LONG_PREFIX lines of a history: a representation-only difference
+        // is confirmed behaviourally by replaying the whole prefix for every probe continuation, which
+        // is quadratic in the history length. Deeper into a long history (ASM-SOAK-LONG, ASM-WRAP) the
+        // verdict rests on the monitor alone — on results, which is what C17 speaks about.
+        let need_state = i < LONG_PREFIX
+            && !matches!(exp, asm::Expect::Incomplete | asm::Expect::Deliver { .. } | asm::Expect::RejectCapacity);
         let d0 = if need_state { p.state() } else { String::new() };
         let (ea, ma) = asm::step(&m_alloc, line, *decode, false);
         let (en, mn) = asm::step(&m_noalloc, line, *decode, true);
@@ -483,47 +490,186 @@ pub fn soak(prop: &'static str) -> Space {
                 run_with_monitor(l, prop, &lines);
                 return;
             }
-            let mut g = 0u32;
-            while lines.len() < 600 {
-                g += 1;
-                let id_s = format!("{}", g % 10);
-                let id: &[u8] = if script % 2 == 0 { b"" } else { id_s.as_bytes() };
-                let dec = phase ^ (g % 3 == 0);
-                let n = 2 + (g + script as u32) % 4;
-                match (g + script as u32) % 8 {
-                    0 | 1 | 2 => {
-                        // complete group
-                        for k in 1..=n {
-                            lines.push((sentence(n, k, id, format!("g{}k{}", g % 10, k).replace('g', "7").replace('k', "8").as_bytes(), 0), dec));
-                        }
-                    }
-                    3 => {
-                        // abandoned group
-                        lines.push((sentence(n + 1, 1, id, b"abc", 0), dec));
-                        lines.push((sentence(n + 1, 2, id, b"abd", 0), dec));
-                    }
-                    4 => lines.push((sentence(1, 1, b"", &t1, 0), dec)),
+            cyclic_script(script, phase, 600, &t1, &mut lines);
+            run_with_monitor(l, prop, &lines);
+        },
+    )
+}
+
+/// The cyclic script of ASM-SOAK / ASM-SOAK-LONG number `script` (0..8), `len` lines long.
+fn cyclic_script(script: u64, phase: bool, len: usize, t1: &[u8], lines: &mut Vec<(Vec<u8>, bool)>) {
+    let mut g = 0u32;
+    while lines.len() < len {
+        g += 1;
+        let id_s = format!("{}", g % 10);
+        let id: &[u8] = if script % 2 == 0 { b"" } else { id_s.as_bytes() };
+        let dec = phase ^ (g % 3 == 0);
+        let n = 2 + (g + script as u32) % 4;
+        match (g + script as u32) % 8 {
+            0 | 1 | 2 => {
+                // complete group
+                for k in 1..=n {
+                    lines.push((sentence(n, k, id, format!("g{}k{}", g % 10, k).replace('g', "7").replace('k', "8").as_bytes(), 0), dec));
+                }
+            }
+            3 => {
+                // abandoned group
+                lines.push((sentence(n + 1, 1, id, b"abc", 0), dec));
+                lines.push((sentence(n + 1, 2, id, b"abd", 0), dec));
+            }
+            4 => lines.push((sentence(1, 1, b"", &t1, 0), dec)),
+            5 => {
+                let m = Mk::new(2, 2, id, b"zz1", 0);
+                let wrong = format!("*{:02X}", m.xor() ^ 0x40);
+                lines.push((m.render_with(wrong.as_bytes()), dec));
+                lines.push((b"!AIVDM,nonsense".to_vec(), dec));
+            }
+            6 => {
+                // orphan continuation, then a decodable 2-fragment group with decoding on
+                lines.push((sentence(3, 3, id, b"orf", 0), dec));
+                lines.push((sentence(2, 1, id, &t1[..13], 0), true));
+                lines.push((sentence(2, 2, id, &t1[13..], 0), true));
+            }
+            _ => {
+                // undecodable group with decoding on (decode failure closes the group)
+                lines.push((sentence(2, 1, id, b"000", 0), true));
+                lines.push((sentence(2, 2, id, b"000", 0), true));
+                lines.push((sentence(3, 3, id, b"001", 0), false));
+            }
+        }
+    }
+}
+
+/// ASM-SOAK-LONG: the eight cyclic scripts of ASM-SOAK continued for `len` lines, so that the number
+/// of lines, of groups (about len / 2.3), of deliveries and of rejected lines each cross 2^8 and — for
+/// len > 160 000 — 2^16: any counter, generation number, periodic clean-up or wrap-around of such a
+/// width that influences results shows up as a step the monitor disagrees with.
+pub fn soak_long(prop: &'static str, len: usize) -> Space {
+    Space::new(
+        "ASM-SOAK-LONG",
+        "the 8 cyclic scripts of ASM-SOAK x decode phase continued for 200 000 lines (thorough: 1 000 000): line / group / delivery / error counts cross 2^8 and 2^16; every step judged by the monitor",
+        8 * 2,
+        move |i, l| {
+            let t1 = type1_payload();
+            let mut lines: Vec<(Vec<u8>, bool)> = Vec::with_capacity(len + 4);
+            cyclic_script(i / 2, i % 2 == 1, len, &t1, &mut lines);
+            run_with_monitor(l, prop, &lines);
+        },
+    )
+}
+
+/// ASM-WRAP: a counter, generation number or periodic clean-up inside the parser can only matter at
+/// the moment it wraps or fires. For each boundary B in {2^8, 2^16} and each kind of filler (so that
+/// the number of lines, of accepted sentences, of decoded messages, of checksum / grammar / sequencing
+/// errors, of groups or of deliveries is what reaches B), a scenario — a 3-fragment group with optional
+/// noise between its fragments, then a 2-fragment group and an unfragmented sentence — is placed so
+/// that EACH of its lines in turn is the (B-1)-th, B-th, (B+1)-th ... event. Judged step by step by
+/// the monitor: no result may depend on how much the parser has already seen.
+pub fn wrap(prop: &'static str, thorough: bool) -> Space {
+    let bounds: &'static [u64] = if thorough { &[256, 65_536, 131_072, 1 << 20] } else { &[256, 65_536] };
+    const FILL: u64 = 7; // filler kinds
+    const OFFS: u64 = 12; // B-9 ..= B+2 filler units before the scenario (the scenario has up to 9 lines)
+    // (boundary, noise after fragment 1, noise after fragment 2): all 16 noise pairs at 2^8, the four
+    // pairs with the same noise in both gaps at the large boundaries (cost is proportional to B)
+    let mut combos: Vec<(u64, u64, u64)> = Vec::new();
+    for &b in bounds {
+        for n1 in 0..4u64 {
+            for n2 in 0..4u64 {
+                if b <= 256 || n1 == n2 {
+                    combos.push((b, n1, n2));
+                }
+            }
+        }
+    }
+    let size = combos.len() as u64 * FILL * OFFS * 2;
+    Space::new(
+        "ASM-WRAP",
+        "boundaries {2^8, 2^16 (thorough: also 2^17, 2^20)} x 7 filler kinds (unfragmented, unfragmented decoded, bad checksum, garbage, orphan continuation, complete 2-groups, abandoned groups) x filler count B-9..=B+2 x noise between fragments 1|2 and 2|3 in {none, unfragmented, bad checksum, orphan of another id} (all 16 pairs at 2^8, the 4 equal pairs above) x id {none, 4}: 3-fragment group + 2-fragment group + unfragmented sentence straddling the boundary at every alignment",
+        size,
+        move |i, l| {
+            let mut r = Radix(i);
+            let (b, n1, n2) = combos[r.take(combos.len() as u64) as usize];
+            let fill = r.take(FILL);
+            let off = r.take(OFFS);
+            let id: &[u8] = if r.take(2) == 0 { b"" } else { b"4" };
+            let t1 = type1_payload();
+            let units = b + off - 9;
+            let mut lines: Vec<(Vec<u8>, bool)> = Vec::with_capacity(units as usize * 2 + 12);
+            let bad = {
+                let m = Mk::new(2, 2, id, b"w2", 0);
+                let wrong = format!("*{:02X}", m.xor() ^ 0x10);
+                m.render_with(wrong.as_bytes())
+            };
+            for u in 0..units {
+                match fill {
+                    0 => lines.push((sentence(1, 1, b"", &t1, 0), false)),
+                    1 => lines.push((sentence(1, 1, b"", &t1, 0), true)),
+                    2 => lines.push((bad.clone(), false)),
+                    3 => lines.push((b"!AIVDM,x".to_vec(), false)),
+                    4 => lines.push((sentence(2, 2, b"9", b"orf", 0), false)),
                     5 => {
-                        let m = Mk::new(2, 2, id, b"zz1", 0);
-                        let wrong = format!("*{:02X}", m.xor() ^ 0x40);
-                        lines.push((m.render_with(wrong.as_bytes()), dec));
-                        lines.push((b"!AIVDM,nonsense".to_vec(), dec));
+                        let tok = [b'1', crate::spec::unarmor::armor_char((u % 64) as u8)];
+                        lines.push((sentence(2, 1, id, &tok, 0), false));
+                        lines.push((sentence(2, 2, id, &tok, 0), false));
                     }
-                    6 => {
-                        // orphan continuation, then a decodable 2-fragment group with decoding on
-                        lines.push((sentence(3, 3, id, b"orf", 0), dec));
-                        lines.push((sentence(2, 1, id, &t1[..13], 0), true));
-                        lines.push((sentence(2, 2, id, &t1[13..], 0), true));
-                    }
-                    _ => {
-                        // undecodable group with decoding on (decode failure closes the group)
-                        lines.push((sentence(2, 1, id, b"000", 0), true));
-                        lines.push((sentence(2, 2, id, b"000", 0), true));
-                        lines.push((sentence(3, 3, id, b"001", 0), false));
+                    _ => lines.push((sentence(3, 1, id, b"ab1", 0), false)),
+                }
+            }
+            let noise = |which: u64, lines: &mut Vec<(Vec<u8>, bool)>| match which {
+                1 => lines.push((sentence(1, 1, b"", &t1, 0), false)),
+                2 => lines.push((bad.clone(), false)),
+                3 => lines.push((sentence(3, 2, b"8", b"oth", 0), false)),
+                _ => {}
+            };
+            lines.push((sentence(3, 1, id, b"s1a", 0), false));
+            noise(n1, &mut lines);
+            lines.push((sentence(3, 2, id, b"s2b", 0), false));
+            noise(n2, &mut lines);
+            lines.push((sentence(3, 3, id, b"s3c", 0), false));
+            lines.push((sentence(2, 1, id, &t1[..13], 0), true));
+            lines.push((sentence(2, 2, id, &t1[13..], 0), true));
+            lines.push((sentence(1, 1, b"", &t1, 0), true));
+            lines.push((sentence(3, 2, id, b"late", 0), false));
+            run_with_monitor(l, prop, &lines);
+            // --- deletion metamorphism (C17), as in ASM-HIST: removing the rejected lines and the
+            // unfragmented sentences — here all of them at once, which follows from removing them one
+            // by one — must leave the result of every other line unchanged.
+            if prop == "C17" {
+                let mut p = Parser::new();
+                let outs: Vec<Out> = lines.iter().map(|(x, d)| p.parse(x, *d)).collect();
+                let keep: Vec<usize> = (0..lines.len())
+                    .filter(|&q| {
+                        let unfrag = lines[q].0.starts_with(b"!AIVDM,1,1,");
+                        let late = q + 1 == lines.len();
+                        let filler_or_noise = unfrag || late || lines[q].0 == bad || lines[q].0.starts_with(b"!AIVDM,x") || {
+                            let x = &lines[q].0;
+                            x.starts_with(b"!AIVDM,2,2,9,") || x.starts_with(b"!AIVDM,3,2,8,")
+                        };
+                        !(filler_or_noise && (unfrag || matches!(outs[q], Out::Err(_))))
+                    })
+                    .collect();
+                let mut p2 = Parser::new();
+                for &q in &keep {
+                    let o2 = p2.parse(&lines[q].0, lines[q].1);
+                    if o2.digest() != outs[q].digest() {
+                        l.violation("hist.removal-changes-results", || {
+                            J::obj(vec![
+                                ("what", J::s("the result of a line differs when the rejected lines and unfragmented sentences before it are removed from the history")),
+                                ("boundary", J::u(b)),
+                                ("filler_kind", J::u(fill)),
+                                ("filler_units", J::u(units)),
+                                ("line_index", J::u(q as u64)),
+                                ("line", J::s(esc_bytes(&lines[q].0))),
+                                ("outcome_in_full_history", J::s(outs[q].show())),
+                                ("outcome_with_them_removed", J::s(o2.show())),
+                                ("last_lines", J::Arr(lines[lines.len().saturating_sub(12)..].iter().map(|(x, _)| J::s(esc_bytes(x))).collect())),
+                                ("build", J::s(subj::BUILD)),
+                            ])
+                        });
+                        break;
                     }
                 }
             }
-            run_with_monitor(l, prop, &lines);
         },
     )
 }
@@ -1222,6 +1368,8 @@ pub fn c05(tier: Tier) -> Vec<Space> {
         groups("C05"),
         id_pairs("C05"),
         soak("C05"),
+        soak_long("C05", if tier == Tier::Quick { 200_000 } else { 1_000_000 }),
+        wrap("C05", tier == Tier::Thorough),
     ];
     if tier == Tier::Thorough {
         v.push(hist_space("C05", 6)); // directly continuing fragments must be accepted
@@ -1236,6 +1384,8 @@ pub fn c06(tier: Tier) -> Vec<Space> {
         groups("C06"),
         id_pairs("C06"),
         soak("C06"),
+        soak_long("C06", if tier == Tier::Quick { 200_000 } else { 1_000_000 }),
+        wrap("C06", tier == Tier::Thorough),
     ]
 }
 
@@ -1245,6 +1395,8 @@ pub fn c17(tier: Tier) -> Vec<Space> {
         soak("C17"),
         hist_space("C17", if tier == Tier::Quick { 5 } else { 6 }),
         two_parsers("C17"),
+        soak_long("C17", if tier == Tier::Quick { 200_000 } else { 1_000_000 }),
+        wrap("C17", tier == Tier::Thorough),
         chain("C17"),
         groups("C17"),
     ]
